@@ -172,6 +172,10 @@ Proof. exact generated_shapes_arb_requests. Qed.
 Theorem c19_plain_structures_unchanged_u2f_requests : plain_hold raw_decls plain_u2f_requests = true.
 Proof. exact generated_plain_u2f_requests. Qed.
 
+(* the cargo features are independent switches with nothing on by default: a feature set of the model means exactly its cfgs *)
+Theorem c19_feature_table_unchanged : features_hold cargo_features = true.
+Proof. exact generated_features. Qed.
+
 Eval vm_compute in "ASSUMPTIONS c19_bytes". Print Assumptions c19_bytes.
 Eval vm_compute in "ASSUMPTIONS c19_byte_array". Print Assumptions c19_byte_array.
 Eval vm_compute in "ASSUMPTIONS c19_str". Print Assumptions c19_str.
@@ -197,3 +201,4 @@ Eval vm_compute in "ASSUMPTIONS c19_generated_conforms". Print Assumptions c19_g
 Eval vm_compute in "ASSUMPTIONS c19_plain_structures_unchanged_u2f_requests". Print Assumptions c19_plain_structures_unchanged_u2f_requests.
 Eval vm_compute in "ASSUMPTIONS c19_ctap2_request_generator". Print Assumptions c19_ctap2_request_generator.
 Eval vm_compute in "ASSUMPTIONS c19_request_enums_unchanged". Print Assumptions c19_request_enums_unchanged.
+Eval vm_compute in "ASSUMPTIONS c19_feature_table_unchanged". Print Assumptions c19_feature_table_unchanged.
